@@ -76,10 +76,11 @@ func Write(out io.Writer, node ast.Node, options Options) (err error) {
 		importsBuf.WriteRune('\n')
 	}
 
-	out.Write(importsBuf.Bytes())
-	out.Write(tmpOut.Bytes())
-
-	return nil
+	if _, err = out.Write(importsBuf.Bytes()); err != nil {
+		return err
+	}
+	_, err = out.Write(tmpOut.Bytes())
+	return err
 }
 
 // at marks the state to be on node n, for error reporting.
